@@ -1,7 +1,7 @@
 (* C17 — the remaining public entry points: ordering comparisons on vectors, defaulted epsilons / styles. *)
 From Coq Require Import ZArith Reals List Bool Lia.
 From Flocq Require Import Core BinarySingleNaN.
-From DuneV Require Import Params_gen C17_Model C17_Spec C17_Spec_Round C17_Defaults C17_Proofs_Cmp C17_Proofs_Round.
+From DuneV Require Import Params_gen C17_Model C17_Spec C17_Spec_Round C17_Defaults C17_Proofs_Cmp C17_Proofs_Int C17_Proofs_BinFix C17_Proofs_Round.
 Import ListNotations.
 
 Section VecOrder.
@@ -127,3 +127,76 @@ Proof.
     as (S & R & _ & _ & _ & _ & _ & _ & _ & _ & L). auto.
 Qed.
 
+
+(* ---------------------------------------------------------------- FloatCmpOps members forward (cstyle_, rstyle_, epsilon_) *)
+Section Ops.
+Variable prec emax : Z.
+Context (Hprec : Prec_gt_0 prec) (Hmax : Prec_lt_emax prec emax).
+Notation fl := (binary_float prec emax).
+Notation ops := (c17_ops prec emax).
+
+Lemma C17_ops_forwarding_lemma (o : ops) (e : fl) (t : c17_ity) (a b v : fl) :
+  (* every member is the free function at the object's own template arguments and epsilon *)
+  c17_ops_eq prec emax Hprec Hmax o a b = c17_eq prec emax Hprec Hmax (c17_ops_cstyle prec emax o) (c17_ops_eps prec emax o) a b /\
+  c17_ops_ne prec emax Hprec Hmax o a b = c17_ne prec emax Hprec Hmax (c17_ops_cstyle prec emax o) (c17_ops_eps prec emax o) a b /\
+  c17_ops_gt prec emax Hprec Hmax o a b = c17_gt prec emax Hprec Hmax (c17_ops_cstyle prec emax o) (c17_ops_eps prec emax o) a b /\
+  c17_ops_lt prec emax Hprec Hmax o a b = c17_lt prec emax Hprec Hmax (c17_ops_cstyle prec emax o) (c17_ops_eps prec emax o) a b /\
+  c17_ops_ge prec emax Hprec Hmax o a b = c17_ge prec emax Hprec Hmax (c17_ops_cstyle prec emax o) (c17_ops_eps prec emax o) a b /\
+  c17_ops_le prec emax Hprec Hmax o a b = c17_le prec emax Hprec Hmax (c17_ops_cstyle prec emax o) (c17_ops_eps prec emax o) a b /\
+  c17_ops_round prec emax Hprec Hmax o t v =
+    c17_round_fix prec emax Hprec Hmax (c17_ops_rstyle prec emax o) t (c17_ops_cstyle prec emax o) (c17_ops_eps prec emax o) v /\
+  c17_ops_trunc prec emax Hprec Hmax o t v =
+    c17_trunc_fix prec emax Hprec Hmax (c17_ops_rstyle prec emax o) t (c17_ops_cstyle prec emax o) (c17_ops_eps prec emax o) v /\
+  (* epsilon(e) stores e and nothing else; epsilon() returns it *)
+  c17_ops_eps prec emax (c17_ops_set_eps prec emax o e) = e /\
+  c17_ops_cstyle prec emax (c17_ops_set_eps prec emax o e) = c17_ops_cstyle prec emax o /\
+  c17_ops_rstyle prec emax (c17_ops_set_eps prec emax o e) = c17_ops_rstyle prec emax o /\
+  (* the default constructor takes DefaultEpsilon of the object's own compare style *)
+  (forall cs rs, c17_ops_eps prec emax (c17_ops_default prec emax Hprec Hmax cs rs) = c17_default_eps prec emax Hprec Hmax cs).
+Proof. repeat split. Qed.
+
+(* hence the comparison algebra for the member forms *)
+Lemma C17_ops_algebra_lemma (o : ops) (a b : fl) :
+  is_finite a = true -> is_finite b = true -> is_finite (c17_ops_eps prec emax o) = true -> (0 <= B2R (c17_ops_eps prec emax o))%R ->
+  c17_ops_eq prec emax Hprec Hmax o a b = c17_ops_eq prec emax Hprec Hmax o b a /\
+  c17_cmp_laws (c17_flt prec emax a b) (c17_fgt prec emax a b)
+    (c17_ops_eq prec emax Hprec Hmax o a b) (c17_ops_ne prec emax Hprec Hmax o a b) (c17_ops_gt prec emax Hprec Hmax o a b)
+    (c17_ops_lt prec emax Hprec Hmax o a b) (c17_ops_ge prec emax Hprec Hmax o a b) (c17_ops_le prec emax Hprec Hmax o a b) = true.
+Proof.
+  intros Fa Fb Fe Pe. unfold c17_ops_eq, c17_ops_ne, c17_ops_gt, c17_ops_lt, c17_ops_ge, c17_ops_le.
+  destruct (C17_cmp_algebra_lemma prec emax Hprec Hmax (c17_ops_cstyle prec emax o) (c17_ops_eps prec emax o) a b Fa Fb Fe Pe)
+    as (S & _ & _ & _ & _ & _ & _ & _ & _ & _ & L). auto.
+Qed.
+End Ops.
+
+(* the compare style of the object matters for trunc / round (a member that ignored cstyle_ or rstyle_ would be visible):
+   binary64, eps = 0.05, val = 2.9: relativeWeak says 3 is near (0.1 <= 0.05*3), absolute does not;
+   val = 2.5: round downward 2, upward 3 *)
+Definition c17_ex_f64' (bits : Z) : binary_float 53 1024 := c17_of_bits 53 1024 c17_Hprec64 c17_Hmax64 64 bits.
+Lemma C17_ops_styles_matter_lemma :
+  let eps := c17_ex_f64' 0x3fa999999999999a in
+  let i32 := C17_Ity true 32 in
+  c17_ops_trunc 53 1024 c17_Hprec64 c17_Hmax64 (C17_Ops 53 1024 C17_RelWeak C17_Downward eps) i32 (c17_ex_f64' 0x4007333333333333) = C17_Val 3%Z /\
+  c17_ops_trunc 53 1024 c17_Hprec64 c17_Hmax64 (C17_Ops 53 1024 C17_Absolute C17_Downward eps) i32 (c17_ex_f64' 0x4007333333333333) = C17_Val 2%Z /\
+  c17_ops_round 53 1024 c17_Hprec64 c17_Hmax64 (C17_Ops 53 1024 C17_Absolute C17_Downward eps) i32 (c17_ex_f64' 0x4004000000000000) = C17_Val 2%Z /\
+  c17_ops_round 53 1024 c17_Hprec64 c17_Hmax64 (C17_Ops 53 1024 C17_Absolute C17_Upward eps) i32 (c17_ex_f64' 0x4004000000000000) = C17_Val 3%Z.
+Proof. cbv zeta. repeat split; vm_compute; reflexivity. Qed.
+
+(* the literals of math.hh re-read from the source agree with the model *)
+Lemma C17_source_literals_lemma :
+  (forall v : Z, c17_isign_src v = c17_isign v) /\
+  (forall n : Z, c17_binomial_nn_src n = if (0 <=? n)%Z then 1%Z else 0%Z) /\
+  (forall (t : c17_ity) (n : Z), c17_inrange t 0%Z = true -> c17_inrange t n = true -> c17_inrange t 1%Z = true ->
+     c17_binomial_fix t n n = C17_Val (c17_binomial_nn_src n)).
+Proof.
+  split; [|split].
+  - intros v. unfold c17_isign_src, c17_isign. destruct (v <? 0)%Z; reflexivity.
+  - intros n. unfold c17_binomial_nn_src. destruct (0 <=? n)%Z; reflexivity.
+  - intros t n R0 Rn R1. unfold c17_binomial_nn_src.
+    change c17_param_binom_nn_then with 1%Z. change c17_param_binom_nn_else with 0%Z.
+    destruct (Z.leb_spec 0 n) as [Hn|Hn].
+    + rewrite (C17_Proofs_BinFix.C17_binomial_exact_lemma t n n ltac:(lia) R0 Rn).
+      * unfold c17_spec_binomial. rewrite (proj2 (Z.ltb_ge n 0)), Z.ltb_irrefl by lia. simpl. now rewrite C17_Proofs_Int.c17_choose_nn.
+      * unfold c17_spec_binomial. rewrite (proj2 (Z.ltb_ge n 0)), Z.ltb_irrefl by lia. simpl. now rewrite C17_Proofs_Int.c17_choose_nn.
+    + apply C17_Proofs_BinFix.C17_binomial_fix_outside_lemma. lia.
+Qed.
